@@ -125,6 +125,34 @@ type c09Case struct {
 	Mismatch float64 `json:"mismatch,omitempty"`
 	Open     float64 `json:"open"`
 	Extend   float64 `json:"extend"`
+	// Order in which the scheme is configured: 0 = open, extend, scores; 1 = extend, open, scores;
+	// 2 = scores, extend, open.  The configured scheme is the last value given to each setter.
+	Order int `json:"setter_order,omitempty"`
+}
+
+// c09Configure applies the scheme of the case in the order the case asks for.
+func c09Configure(a align.PairwiseAligner, cs *c09Case, scores bool) {
+	open := func() { a.SetGapOpenScore(cs.Open) }
+	ext := func() { a.SetGapExtendScore(cs.Extend) }
+	sc := func() {
+		if scores {
+			a.SetScore(cs.Match, cs.Mismatch)
+		}
+	}
+	switch cs.Order {
+	case 1:
+		ext()
+		open()
+		sc()
+	case 2:
+		sc()
+		ext()
+		open()
+	default:
+		open()
+		ext()
+		sc()
+	}
 }
 
 type c09Gap struct{ open, extend float64 }
@@ -395,9 +423,7 @@ func c09Inputs(c *mc.Ctx, cs c09Case) {
 	var err error
 	if pn, msg := mc.Guard(func() {
 		a := align.NewPwAligner(sq1, sq2, align.ALIGN_ALGO_ATG)
-		a.SetGapOpenScore(cs.Open)
-		a.SetGapExtendScore(cs.Extend)
-		a.SetScore(cs.Match, cs.Mismatch)
+		c09Configure(a, &cs, true)
 		_, err = a.Alignment()
 	}); pn {
 		c.Violation("C09/atg/panic/"+mc.PanicSite(msg), msg+": case "+jsonStr(cs), cs)
@@ -481,11 +507,7 @@ func c09Check(c *mc.Ctx, o *c09Oracle, cs c09Case) {
 	)
 	if pn, msg := mc.Guard(func() {
 		a := align.NewPwAligner(sq1, sq2, align.ALIGN_ALGO_SW)
-		a.SetGapOpenScore(cs.Open)
-		a.SetGapExtendScore(cs.Extend)
-		if cs.Mode == "mm" {
-			a.SetScore(cs.Match, cs.Mismatch)
-		}
+		c09Configure(a, &cs, cs.Mode == "mm")
 		al, err = a.Alignment()
 		r1, r2 = a.Seq1Ali(), a.Seq2Ali()
 		st1, st2 = a.AlignStarts()
@@ -761,6 +783,23 @@ func c09Tasks(tier string) []mc.Task {
 	}
 	ts = c09PairTasks(ts, "mmbin", c09AlphaBin, binMax, func(s1, s2 string) bool { return len(s1) > mmMax || len(s2) > mmMax }, both)
 
+	// (iii') penalties beyond the defaults (open -10, extend -0.5) with scores large enough for gap runs of
+	// two and more to be optimal on short sequences, configured in the three setter orders; and the 8
+	// non-binary schemes in the other two orders
+	steep := func(c *mc.Ctx, o *c09Oracle, s1, s2 string) {
+		for _, sc := range []c09Scheme{{30, -30, c09Gap{-12, -11}}, {20, -20, c09Gap{-25, -15}}, {30, -10, c09Gap{-11, -10.5}}} {
+			for order := 0; order < 3; order++ {
+				c09Check(c, o, c09Case{S1: s1, S2: s2, Mode: "mm", Match: sc.match, Mismatch: sc.mismatch, Open: sc.open, Extend: sc.extend, Order: order})
+			}
+		}
+		for _, sc := range c09DecimalSchemes {
+			for order := 1; order < 3; order++ {
+				c09Check(c, o, c09Case{S1: s1, S2: s2, Mode: "mm", Match: sc.match, Mismatch: sc.mismatch, Open: sc.open, Extend: sc.extend, Order: order})
+			}
+		}
+	}
+	ts = c09PairTasks(ts, "mmsteep", c09AlphaBin, 6, nil, steep)
+
 	// (iv) DNAfull
 	dnaMax := 3
 	if thorough {
@@ -801,7 +840,7 @@ func init() {
 	mc.Register(&mc.Prop{
 		ID:    "C09",
 		Level: "exploration",
-		Rule: "bounded-exhaustive enumeration of align.NewPwAligner(s1,s2,ALIGN_ALGO_SW) with SetGapOpenScore/SetGapExtendScore always set (and SetScore in match/mismatch mode), then Alignment(); " +
+		Rule: "bounded-exhaustive enumeration of align.NewPwAligner(s1,s2,ALIGN_ALGO_SW) with SetGapOpenScore/SetGapExtendScore always set (and SetScore in match/mismatch mode), then Alignment(); all pairs of length 1..6 over {A,C} also under 3 schemes with penalties beyond the defaults (30/-30/-12/-11, 20/-20/-25/-15, 30/-10/-11/-10.5) and the 8 non-binary schemes configured in the three setter orders (open-extend-scores, extend-open-scores, scores-extend-open); " +
 			"on every case: rows (Seq1Ali/Seq2Ali and the returned Alignment) of equal length, no all-gap column, de-gapped rows = s[start..end] (0-based inclusive; an empty alignment has end = start-1), " +
 			"matches+mismatches+gaps = Length() = row length, gap count = gap columns, match/mismatch counts = identical/different residue pairs, inputs unchanged, no error, no panic; " +
 			"when the oracle optimum is > 0: MaxScore() = score of the returned rows (gap of length k costs open+(k-1)*extend) and MaxScore() = optimum of an independent three-state Gotoh local dynamic program, " +
